@@ -721,3 +721,6 @@ fn report_exit(exit_reason: eyre::Result<&str>, message: &str) -> eyre::Result<(
         }
     }
 }
+
+#[cfg(feature = "verif")]
+pub(crate) mod verif_hooks;
